@@ -120,6 +120,8 @@ func cacheScan(w *world, ms []int, st *e2eStats, visit func(r1, r2 creq, combo, 
 	}
 }
 
+var cacheSampled bool // one sample per shard
+
 var cacheFailMemo = map[string]cacheFailure{}
 
 // cacheFirstFailure: the first sequence (in scan order) of a set one of whose responses violates the clause.
@@ -147,8 +149,8 @@ func runCachePlan(r *vlib.Run, p e2ePlan, st *e2eStats) {
 	seen := map[string]bool{}
 	sampled := false
 	cacheScan(w, p.ms, st, func(r1, r2 creq, combo, step int, o observation) bool {
-		if !sampled && step == 1 && o.NonTriv && r1.S == r2.S && r1.Cl == r2.Cl {
-			sampled = true
+		if !sampled && !cacheSampled && step == 1 && o.NonTriv && r1.S == r2.S && r1.Cl == r2.Cl {
+			sampled, cacheSampled = true, true
 			r.Sample(map[string]interface{}{"part": "e2e-cache", "candidates": setKey(w.set), "backend": w.backend.String(), "first": r1.String(), "then": r2.String(), "judged": stepName[step], "want": o.Want, "served": o.Addrs, "rcode": o.Rcode, "draws_taken": o.Taken, "verdict": o.Kinds})
 		}
 		for _, kind := range o.Kinds {
@@ -196,6 +198,7 @@ search:
 			break search
 		}
 	}
+	best = simplifySet(best, func(t []sym) bool { return cacheFirstFailure(t, p.backend, p.ms, kind).found })
 	f := cacheFirstFailure(best, p.backend, p.ms, kind)
 	if !f.found {
 		f = seenAs // (a verdict that does not repeat: reported as seen)
